@@ -243,6 +243,8 @@ pub enum Elem {
     Ei,
     Di,
     OutBorder,
+    /// n undocumented ED NOPs (ED 00): ordinary 8-T instructions, interruptible like any other
+    EdNops(u8),
 }
 
 fn elem_code(e: &Elem, contended_data: bool) -> Vec<u8> {
@@ -258,6 +260,7 @@ fn elem_code(e: &Elem, contended_data: bool) -> Vec<u8> {
         Elem::Di => vec![0xF3],
         // OUT (FE),A : contended I/O every pass
         Elem::OutBorder => vec![0xD3, 0xFE],
+        Elem::EdNops(n) => (0..*n).flat_map(|_| [0xEDu8, 0x00]).collect(),
     }
 }
 
@@ -402,7 +405,7 @@ pub fn run_program(ctx: &Ctx, m128: bool, p: &Program, frames: u64, verbose: boo
 }
 
 fn elems() -> Vec<Elem> {
-    let mut v = vec![Elem::Halt, Elem::Ldir, Elem::Indexed, Elem::Ei, Elem::Di, Elem::OutBorder];
+    let mut v = vec![Elem::Halt, Elem::Ldir, Elem::Indexed, Elem::Ei, Elem::Di, Elem::OutBorder, Elem::EdNops(9)];
     for n in [1u8, 2, 3, 5, 7, 11, 13, 17, 19, 23, 24] {
         v.push(Elem::Nops(n));
     }
@@ -549,7 +552,7 @@ pub fn run(tier: Tier, seed: u64, replay: Option<String>) -> i32 {
     ctx.note("frames_per_program", json!(frames));
     ctx.sample(json!({"program": format!("{:?}", progs[progs.len() / 2])}));
     ctx.finish(
-        "(a) every T of the frame x both machines x running/halted: an enabled interrupt is accepted at that boundary iff T < 32, pushed address checked; (a') the same after a frame end reached by real execution: 4/13/23-T instructions straddling the frame end with every overrun 0..22, followed by fillers that put the first interrupt-enabled boundary on every T up to about 60, lock step with RefMachine; (a'') the pulse is a level, not a request dropped by the acknowledge: handlers `EI; k NOPs; RET` (k=0..5) in IM 2 (and IM 0 on the 48K) with interrupts enabled at every T of 0..35, free running for 16 instructions in lock step (a handler that re-enables interrupts inside the pulse is re-entered); (b) all loop bodies of <=2 (quick) / <=3 (thorough) elements over {HALT, LDIR, 23-T indexed op, EI, DI, OUT (FE), NOP sleds of 11 lengths}, code and data in contended or uncontended RAM, IM 2 handler of ~40/100/3400 T that counts interrupts, run for whole frames on the real Emulator (clock never placed) and on RefZ80+RefULA, comparing (absolute T, PC, SP) after every instruction, interrupt counter at the end; (c) emulate_frames(FrameCount(n)) emulates exactly n frames, n=1..4. states = instruction boundaries compared",
+        "(a) every T of the frame x both machines x running/halted: an enabled interrupt is accepted at that boundary iff T < 32, pushed address checked; (a') the same after a frame end reached by real execution: 4/13/23-T instructions straddling the frame end with every overrun 0..22, followed by fillers that put the first interrupt-enabled boundary on every T up to about 60, lock step with RefMachine; (a'') the pulse is a level, not a request dropped by the acknowledge: handlers `EI; k NOPs; RET` (k=0..5) in IM 2 (and IM 0 on the 48K) with interrupts enabled at every T of 0..35, free running for 16 instructions in lock step (a handler that re-enables interrupts inside the pulse is re-entered); (b) all loop bodies of <=2 (quick) / <=3 (thorough) elements over {HALT, LDIR, 23-T indexed op, EI, DI, OUT (FE), a sled of undocumented ED NOPs, NOP sleds of 11 lengths}, code and data in contended or uncontended RAM, IM 2 handler of ~40/100/3400 T that counts interrupts, run for whole frames on the real Emulator (clock never placed) and on RefZ80+RefULA, comparing (absolute T, PC, SP) after every instruction, interrupt counter at the end; (c) emulate_frames(FrameCount(n)) emulates exactly n frames, n=1..4. states = instruction boundaries compared",
         true,
         &["absolute T of the implementation = total_frames (hook counter incremented in new_frame) x frame length + frame clock", "RefULA from the property text, RefZ80 validated"],
     )
